@@ -37,7 +37,9 @@ func c11cli(c *h.Ctx) {
 		dir := caseDir(c, fmt.Sprintf("c11.%d", i))
 		defer os.RemoveAll(dir)
 		real, _ := filepath.EvalSymlinks(dir)
-		content := []string{"single line\n", "two\nlines\n", "no trailing newline", "", "unicode żółć ✓\n", "with {{ braces }} inside\n"}[r.Intn(6)]
+		long := strings.Repeat("0123456789abcdef", 330) // more than any internal buffer holds
+		content := []string{"single line\n", "two\nlines\n", "no trailing newline", "", "unicode żółć ✓\n", "with {{ braces }} inside\n",
+			"short\n" + long[:2000] + "\x1b[31m" + long[2000:] + "\x1b[0m tail\nlast\n", long + long + "\n"}[r.Intn(8)]
 		h.WriteFile(real+"/content", content)
 		exportAs := ""
 		if r.Chance(35) {
@@ -78,6 +80,12 @@ func c11cli(c *h.Ctx) {
 			cfg = append(gen.OM{{K: "contexts", V: gen.OM{{K: "noisy", V: gen.OM{{K: "up", V: []interface{}{"echo context-up"}}, {K: "before", V: []interface{}{"echo context-before"}}, {K: "after", V: []interface{}{"echo context-after"}}}}}}}, cfg...)
 		}
 		argv := []string{"-o", []string{"raw", "raw", "prefixed"}[r.Intn(3)]}
+		if i%6 == 1 {
+			// a long coloured line written by an external program, decorated: what is handed on is still what was written
+			argv = []string{"-o", "prefixed"}
+			content = "short\n" + long[:2000] + "\x1b[31m" + long[2000:] + "\x1b[0m tail\nlast\n"
+			h.WriteFile(real+"/content", content)
+		}
 		var env []string
 		switch r.Intn(6) {
 		case 0:
